@@ -128,9 +128,9 @@ Section Txn.
             - intros n0 A B. apply Hm; [assumption|]. intro C. apply B. apply in_or_app. now left. }
           split.
           { intros n0 A B. destruct (in_dec str_eq_dec n0 (txn ++ [n])) as [C|C].
-            - apply in_app_or in C as [C|[<-|[]]]; [contradiction|].
+            - apply in_app_or in C as [C|[C|[]]]; [contradiction|]. subst n0.
               rewrite Fr2; [assumption|]. intros n1 A1 B1 E. apply B1.
-              assert (n1 = n0) as -> by (apply Hinj; [now apply In2|assumption|now symmetry]).
+              assert (n1 = n) as -> by (apply Hinj; [now apply In2|assumption|now symmetry]).
               apply in_or_app. right. now left.
             - now apply Ex2. }
           split; [assumption|]. split; [assumption|].
@@ -144,4 +144,406 @@ Section Txn.
           assert (n1 = n0) as -> by (apply Hinj; [now apply In2|assumption|now symmetry]).
           apply in_or_app. right. now left.
   Qed.
+
+  (* ---------------- the clean-up loops ---------------- *)
+  Lemma abort_frame flt : forall l f k f' k' e, abort_loop flt f k l = (f', k', e) ->
+    forall m, ~ In m (map tmp l) -> fs_get f' m = fs_get f m.
+  Proof.
+    induction l as [|n l IH]; intros f k f' k' e H m Hm; cbn in H.
+    - now inversion H.
+    - destruct (flt k); [now inversion H|].
+      destruct (fs_get f (tmp n)); [|now inversion H].
+      rewrite (IH _ _ _ _ _ H m).
+      + apply get_del_other. intro E. apply Hm. left. now symmetry.
+      + intro. apply Hm. now right.
+  Qed.
+
+  Lemma tmp_notin n l : In n U -> incl l U -> ~ In n l -> ~ In (tmp n) (map tmp l).
+  Proof.
+    intros Hn Hl Hnot Hin. apply in_map_iff in Hin as (x & Ex & Hx).
+    apply Hinj in Ex; [subst; contradiction|now apply Hl|assumption].
+  Qed.
+
+  Lemma abort_ok flt : forall l f k, NoDup l -> incl l U ->
+    (forall n, In n l -> fs_get f (tmp n) <> None) -> (forall j, (k <= j)%nat -> flt j = None) ->
+    exists f' k', abort_loop flt f k l = (f', k', None) /\ (forall n, In n l -> fs_get f' (tmp n) = None).
+  Proof.
+    induction l as [|n l IH]; intros f k Hnd HU Hex Hflt; cbn.
+    - eexists _, _. split; [reflexivity|intros n []].
+    - rewrite (Hflt k (le_n _)).
+      destruct (fs_get f (tmp n)) eqn:E; [|exfalso; apply (Hex n); [now left|assumption]].
+      inversion Hnd; subst.
+      assert (HnU : In n U) by (apply HU; now left).
+      assert (HlU : incl l U) by (intros x Hx; apply HU; now right).
+      destruct (IH (fs_del f (tmp n)) (S k)) as (f' & k' & R & Z); try assumption.
+      + intros n' Hn'. rewrite get_del_other; [apply Hex; now right|].
+        intro Eq. apply Hinj in Eq; [subst; contradiction|now apply HlU|assumption].
+      + intros j Hj. apply Hflt. lia.
+      + exists f', k'. split; [assumption|]. intros n' [<-|Hn']; [|now apply Z].
+        rewrite (abort_frame _ _ _ _ _ _ _ R); [apply get_del_same|]. now apply tmp_notin.
+  Qed.
+
+  Lemma commit_spec flt : forall l f k f' k' e, NoDup l -> incl l U -> commit_loop flt f k l = (f', k', e) ->
+    (forall m, ~ In m l -> ~ In m (map tmp l) -> fs_get f' m = fs_get f m)
+    /\ (forall n, In n l -> fs_get f' n = fs_get f n
+                          \/ (fs_get f' n = fs_get f (tmp n) /\ fs_get f (tmp n) <> None)).
+  Proof.
+    induction l as [|n l IH]; intros f k f' k' e Hnd HU H; cbn in H.
+    - inversion H; subst. split; [reflexivity|intros n []].
+    - destruct (flt k); [inversion H; subst; split; [reflexivity|intros; now left]|].
+      destruct (fs_get f (tmp n)) as [b|] eqn:E; [|inversion H; subst; split; [reflexivity|intros; now left]].
+      inversion Hnd; subst.
+      assert (HnU : In n U) by (apply HU; now left).
+      assert (HlU : incl l U) by (intros x Hx; apply HU; now right).
+      destruct (IH _ _ _ _ _ H3 HlU H) as [P1 P2].
+      assert (G : forall m, m <> tmp n -> fs_get (fs_del (fs_set f n b) (tmp n)) m
+                                         = if str_eqb n m then Some b else fs_get f m).
+      { intros m Hm. rewrite get_del_other by assumption. reflexivity. }
+      split.
+      + intros m A B. rewrite P1.
+        * rewrite G; [|intro X; apply B; left; now symmetry].
+          rewrite str_eqb_neq; [reflexivity|]. intro X. apply A. now left.
+        * intro. apply A. now right.
+        * intro. apply B. now right.
+      + intros x [<-|Hx].
+        * right. rewrite P1; [|assumption|].
+          -- rewrite G; [|intro X; now apply (Hdisj n n)]. rewrite str_eqb_refl. split; [now symmetry|].
+             rewrite E. discriminate.
+          -- intro Hin. apply in_map_iff in Hin as (y & Ey & Hy). apply (Hdisj y n); auto.
+        * assert (x <> n) by (intro; subst; contradiction).
+          assert (HxU : In x U) by now apply HlU.
+          destruct (P2 x Hx) as [L|[R1 R2]].
+          -- left. rewrite L, G; [|intro X; now apply (Hdisj n x)].
+             rewrite str_eqb_neq; [reflexivity|congruence].
+          -- right. rewrite G in R1, R2; try (intro X; apply Hinj in X; congruence).
+             rewrite str_eqb_neq in R1, R2; try (intro X; now apply (Hdisj x n)). now split.
+  Qed.
+
+  Lemma commit_ok flt : forall l f k, NoDup l -> incl l U ->
+    (forall n, In n l -> fs_get f (tmp n) <> None) -> (forall j, (k <= j)%nat -> flt j = None) ->
+    exists f' k', commit_loop flt f k l = (f', k', None)
+      /\ (forall n, In n l -> fs_get f' n = fs_get f (tmp n) /\ fs_get f' (tmp n) = None).
+  Proof.
+    induction l as [|n l IH]; intros f k Hnd HU Hex Hflt; cbn.
+    - eexists _, _. split; [reflexivity|intros n []].
+    - rewrite (Hflt k (le_n _)).
+      destruct (fs_get f (tmp n)) as [b|] eqn:E; [|exfalso; apply (Hex n); [now left|assumption]].
+      inversion Hnd; subst.
+      assert (HnU : In n U) by (apply HU; now left).
+      assert (HlU : incl l U) by (intros x Hx; apply HU; now right).
+      assert (G : forall m, m <> tmp n -> fs_get (fs_del (fs_set f n b) (tmp n)) m
+                                         = if str_eqb n m then Some b else fs_get f m).
+      { intros m Hm. rewrite get_del_other by assumption. reflexivity. }
+      assert (Gx : forall x, In x l -> fs_get (fs_del (fs_set f n b) (tmp n)) (tmp x) = fs_get f (tmp x)).
+      { intros x Hx. assert (x <> n) by (intro; subst; contradiction).
+        rewrite G; [|intro X; apply Hinj in X; auto].
+        rewrite str_eqb_neq; [reflexivity|]. intro X. apply (Hdisj x n); auto. }
+      destruct (IH (fs_del (fs_set f n b) (tmp n)) (S k)) as (f' & k' & R & Z); try assumption.
+      + intros x Hx. rewrite Gx by assumption. apply Hex. now right.
+      + intros j Hj. apply Hflt. lia.
+      + exists f', k'. split; [assumption|].
+        destruct (commit_spec _ _ _ _ _ _ _ H2 HlU R) as [P1 _].
+        intros x [<-|Hx].
+        * split.
+          -- rewrite P1; [|assumption|].
+             ++ rewrite G; [|intro X; now apply (Hdisj n n)]. now rewrite str_eqb_refl.
+             ++ intro Hin. apply in_map_iff in Hin as (y & Ey & Hy). apply (Hdisj y n); auto.
+          -- rewrite P1.
+             ++ apply get_del_same.
+             ++ intro Hin. apply (Hdisj n (tmp n)); auto.
+             ++ now apply tmp_notin.
+        * destruct (Z x Hx) as [Z1 Z2]. split; [|assumption]. now rewrite Z1, Gx.
+  Qed.
+
+  Lemma todo_props order txn : NoDup order -> incl txn order ->
+    NoDup (filter (fun n => memS n txn) order)
+    /\ (forall n, In n (filter (fun n => memS n txn) order) <-> In n txn).
+  Proof.
+    intros Hnd Hin. split; [now apply NoDup_filter|].
+    intro n. rewrite filter_In, memS_In. split; [tauto|]. intro H. split; [now apply Hin|assumption].
+  Qed.
+
+  (* ---------------- save ---------------- *)
+  Notation save := (save tmp decl true).
+
+  Section Save.
+    Variables (f : list (str * str)) (frags : list (str * str)) (order : list str).
+    Hypothesis HU : incl (map fst frags) U.
+    Hypothesis Hord : NoDup order.
+    Hypothesis Hcov : incl U order.
+    Hypothesis Hfresh : forall n, In n U -> fs_get f (tmp n) = None.   (* no stale temporary files *)
+
+    Lemma save_abort_general flt dry f1 txn k1 werr :
+      write_all flt f [] 0 frags = (f1, txn, k1, werr) ->
+      dry = true \/ werr <> None -> (forall j, (k1 <= j)%nat -> flt j = None) ->
+      exists f2, save flt f true frags order dry = (f2, true, werr) /\ fs_eq f2 f.
+    Proof.
+      intros W Hab Hflt.
+      destruct (write_all_spec flt frags f [] 0 f1 txn k1 werr HU (incl_nil_l _) (NoDup_nil _) W)
+        as (Fr & Ex & Nd & InU & _ & _ & _).
+      destruct (todo_props order txn Hord (fun x Hx => Hcov x (InU x Hx))) as [Tnd Tin].
+      set (todo := filter (fun n => memS n txn) order) in *.
+      assert (TU : incl todo U) by (intros x Hx; apply InU, Tin, Hx).
+      destruct (abort_ok flt todo f1 k1 Tnd TU) as (f2 & k2 & R & Z); try assumption.
+      { intros n Hn. apply Ex; [now apply Tin|intros []]. }
+      exists f2. split.
+      - unfold SaveTxn.save. cbn [negb]. rewrite W. fold todo.
+        assert (C : dry || is_some werr = true).
+        { destruct Hab as [->|Hne]; [reflexivity|]. destruct werr; [apply orb_true_r|congruence]. }
+        rewrite C, R. reflexivity.
+      - intro m. destruct (in_dec str_eq_dec m (map tmp todo)) as [Hin|Hnot].
+        + apply in_map_iff in Hin as (n & <- & Hn). rewrite (Z n Hn). symmetry. apply Hfresh. now apply TU.
+        + rewrite (abort_frame flt _ _ _ _ _ _ R m Hnot). apply Fr.
+          intros n Hn _ E. apply Hnot. subst. apply in_map. now apply Tin.
+    Qed.
+
+    (* every file is either untouched or holds its complete new content — whatever faults happen *)
+    Lemma save_never_partial flt dry f2 idle' res :
+      save flt f true frags order dry = (f2, idle', res) ->
+      idle' = true
+      /\ (forall n c, In (n, c) frags -> fs_get f2 n = fs_get f n \/ fs_get f2 n = Some (decl ++ c))
+      /\ (forall m, ~ In m U -> ~ In m (map tmp U) -> fs_get f2 m = fs_get f m).
+    Proof.
+      unfold SaveTxn.save. cbn [negb].
+      destruct (write_all flt f [] 0 frags) as [[[f1 txn] k1] werr] eqn:W.
+      destruct (write_all_spec flt frags f [] 0 f1 txn k1 werr HU (incl_nil_l _) (NoDup_nil _) W)
+        as (Fr & Ex & Nd & InU & _ & Full & _).
+      destruct (todo_props order txn Hord (fun x Hx => Hcov x (InU x Hx))) as [Tnd Tin].
+      set (todo := filter (fun n => memS n txn) order) in *.
+      assert (TU : incl todo U) by (intros x Hx; apply InU, Tin, Hx).
+      assert (Fr' : forall m, ~ In m (map tmp U) -> fs_get f1 m = fs_get f m).
+      { intros m Hm. apply Fr. intros n Hn _ E. apply Hm. subst. apply in_map. now apply InU. }
+      assert (NU : forall n, In n U -> ~ In n (map tmp U)).
+      { intros n Hn Hin. apply in_map_iff in Hin as (y & Ey & Hy). now apply (Hdisj y n). }
+      destruct (dry || is_some werr) eqn:C.
+      - destruct (abort_loop flt f1 k1 todo) as [[f2' k2] cerr] eqn:R. intro H. inversion H; subst. clear H.
+        split; [reflexivity|].
+        assert (A : forall m, ~ In m (map tmp U) -> fs_get f2 m = fs_get f m).
+        { intros m Hm. rewrite (abort_frame flt _ _ _ _ _ _ R m); [now apply Fr'|].
+          intro Hin. apply Hm. apply in_map_iff in Hin as (y & <- & Hy). apply in_map. now apply TU. }
+        split.
+        + intros n c Hin. left. apply A, NU, HU. apply in_map_iff. now exists (n, c).
+        + intros m _ Hm. now apply A.
+      - apply orb_false_iff in C as [-> C]. destruct werr; [discriminate|]. clear C.
+        destruct (Full eq_refl) as [Etxn Fullc]. cbn in Etxn.
+        destruct (commit_loop flt f1 k1 todo) as [[f2' k2] cerr] eqn:R. intro H. inversion H; subst f2' idle' res. clear H.
+        destruct (commit_spec flt todo f1 k1 f2 k2 cerr Tnd TU R) as [P1 P2].
+        split; [reflexivity|]. split.
+        + intros n c Hin.
+          assert (Hn : In n txn) by (rewrite Etxn; apply in_map_iff; now exists (n, c)).
+          destruct (P2 n (proj2 (Tin n) Hn)) as [L|[R1 _]].
+          * left. rewrite L. apply Fr', NU, InU, Hn.
+          * right. rewrite R1. now apply Fullc.
+        + intros m A B. rewrite P1.
+          * now apply Fr'.
+          * intro X. apply A, TU, X.
+          * intro X. apply B. apply in_map_iff in X as (y & <- & Hy). apply in_map. now apply TU.
+    Qed.
+
+    Lemma save_commit_general flt f1 txn k1 :
+      write_all flt f [] 0 frags = (f1, txn, k1, None) ->
+      (forall j, (k1 <= j)%nat -> flt j = None) ->
+      exists f2, save flt f true frags order false = (f2, true, None)
+        /\ (forall n c, In (n, c) frags -> fs_get f2 n = Some (decl ++ c))
+        /\ (forall m, ~ In m (map fst frags) -> fs_get f2 m = fs_get f m).
+    Proof.
+      intros W Hflt.
+      destruct (write_all_spec flt frags f [] 0 f1 txn k1 None HU (incl_nil_l _) (NoDup_nil _) W)
+        as (Fr & Ex & Nd & InU & _ & Full & _).
+      destruct (Full eq_refl) as [Etxn Fullc]. cbn in Etxn.
+      destruct (todo_props order txn Hord (fun x Hx => Hcov x (InU x Hx))) as [Tnd Tin].
+      set (todo := filter (fun n => memS n txn) order) in *.
+      assert (TU : incl todo U) by (intros x Hx; apply InU, Tin, Hx).
+      destruct (commit_ok flt todo f1 k1 Tnd TU) as (f2 & k2 & R & Z); try assumption.
+      { intros n Hn. apply Ex; [now apply Tin|intros []]. }
+      destruct (commit_spec flt todo f1 k1 f2 k2 None Tnd TU R) as [P1 _].
+      exists f2. split; [|split].
+      - unfold SaveTxn.save. cbn [negb orb is_some]. rewrite W. fold todo. cbn [orb is_some]. now rewrite R.
+      - intros n c Hin.
+        assert (Hn : In n todo) by (apply Tin; rewrite Etxn; apply in_map_iff; now exists (n, c)).
+        destruct (Z n Hn) as [Z1 _]. rewrite Z1. now apply Fullc.
+      - intros m Hm. rewrite <- Etxn in Hm.
+        destruct (in_dec str_eq_dec m (map tmp todo)) as [Hin|Hnot].
+        + apply in_map_iff in Hin as (n & <- & Hn). destruct (Z n Hn) as [_ Z2]. rewrite Z2.
+          symmetry. apply Hfresh. now apply TU.
+        + rewrite P1; [|intro X; apply Hm; now apply Tin|assumption].
+          apply Fr. intros n Hn _ E. apply Hnot. subst. apply in_map. now apply Tin.
+    Qed.
+  End Save.
 End Txn.
+
+(* ---------------- single faults and fault-free runs ---------------- *)
+Section Single.
+  Variable tmp : str -> str.
+  Variable decl : str.
+  Notation write_frag := (write_frag tmp decl true).
+  Notation write_all := (write_all tmp decl true).
+
+  Lemma write_frag_single k e f txn k0 n c f' txn' k' err :
+    ~ In n txn ->
+    write_frag (single_fault k e) f txn k0 n c = (f', txn', k', err) ->
+    ((k0 <= k < k0 + 5)%nat -> err = Some e /\ (k < k')%nat)
+    /\ ((k < k0 \/ k0 + 5 <= k)%nat -> err = None /\ k' = (k0 + 5)%nat)
+    /\ (txn' = txn \/ txn' = txn ++ [n]).
+  Proof.
+    intros Hn. unfold SaveTxn.write_frag, single_fault. apply memS_notIn in Hn. rewrite Hn.
+    destruct (Nat.eqb_spec k0 k).
+    { intro H. inversion H; subst. split; [intros; split; [reflexivity|lia]|]. split; [lia|now left]. }
+    destruct (Nat.eqb_spec (S k0) k).
+    { destruct (Nat.eqb_spec (S (S k0)) k); [lia|].
+      intro H. inversion H; subst. split; [intros; split; [reflexivity|lia]|]. split; [lia|now right]. }
+    destruct (Nat.eqb_spec (S (S k0)) k).
+    { destruct (Nat.eqb_spec (S (S (S k0))) k); [lia|].
+      intro H. inversion H; subst. split; [intros; split; [reflexivity|lia]|]. split; [lia|now right]. }
+    destruct (Nat.eqb_spec (S (S (S k0))) k).
+    { destruct (Nat.eqb_spec (S (S (S (S k0)))) k); [lia|].
+      intro H. inversion H; subst. split; [intros; split; [reflexivity|lia]|]. split; [lia|now right]. }
+    destruct (Nat.eqb_spec (S (S (S (S k0)))) k).
+    { intro H. inversion H; subst. split; [intros; split; [reflexivity|lia]|]. split; [lia|now right]. }
+    intro H. inversion H; subst. split; [lia|]. split; [intros; split; [reflexivity|lia]|now right].
+  Qed.
+
+  Lemma write_all_single k e : forall frags f txn k0 f' txn' k' err,
+    NoDup (map fst frags) -> (forall n, In n (map fst frags) -> ~ In n txn) ->
+    write_all (single_fault k e) f txn k0 frags = (f', txn', k', err) ->
+    ((k0 <= k < k0 + 5 * length frags)%nat -> err = Some e /\ (k < k')%nat)
+    /\ ((k < k0 \/ k0 + 5 * length frags <= k)%nat -> err = None /\ k' = (k0 + 5 * length frags)%nat).
+  Proof.
+    induction frags as [|[n c] frags IH]; intros f txn k0 f' txn' k' err Hnd Hnot H; cbn [SaveTxn.write_all] in H.
+    - inversion H; subst. cbn. split; [lia|]. intros; split; [reflexivity|lia].
+    - destruct (write_frag (single_fault k e) f txn k0 n c) as [[[f1 txn1] k1] e1] eqn:W.
+      cbn [map fst] in Hnd. inversion Hnd; subst.
+      destruct (write_frag_single k e f txn k0 n c f1 txn1 k1 e1 (Hnot n (or_introl eq_refl)) W) as (A & B & T).
+      simpl (length _). destruct e1 as [e1|].
+      + inversion H; subst. split.
+        * intros R. destruct (Nat.lt_ge_cases k (k0 + 5)) as [L|G].
+          -- apply A. lia.
+          -- destruct (B (or_intror G)). discriminate.
+        * intros R. destruct (Nat.lt_ge_cases k k0) as [L|G]; [destruct (B (or_introl L)); discriminate|].
+          assert (G5 : (k0 + 5 <= k)%nat) by (cbn in R; lia).
+          destruct (B (or_intror G5)). discriminate.
+      + assert (Hnot1 : forall x, In x (map fst frags) -> ~ In x txn1).
+        { intros x Hx Hin. destruct T as [->| ->]; [apply (Hnot x); [now right|assumption]|].
+          apply in_app_or in Hin as [Hin|[<-|[]]]; [apply (Hnot x); [now right|assumption]|contradiction]. }
+        destruct (Nat.lt_ge_cases k (k0 + 5)) as [L|G].
+        * destruct (Nat.lt_ge_cases k k0) as [L0|G0].
+          -- destruct (B (or_introl L0)) as [_ ->].
+             destruct (IH _ _ _ _ _ _ _ H3 Hnot1 H) as [_ IB]. split; [lia|].
+             intros _. assert (X : (k < k0 + 5)%nat) by lia.
+             destruct (IB (or_introl X)) as [-> ->]. split; [reflexivity|lia].
+          -- destruct (A (conj G0 L)). discriminate.
+        * destruct (B (or_intror G)) as [_ ->].
+          destruct (IH _ _ _ _ _ _ _ H3 Hnot1 H) as [IA IB]. split.
+          -- intros R. apply IA. lia.
+          -- intros R. assert (X : (k < k0 + 5 \/ k0 + 5 + 5 * length frags <= k)%nat) by lia.
+             destruct (IB X) as [-> ->]. split; [reflexivity|lia].
+  Qed.
+
+  Lemma write_all_nofault : forall frags f txn k0 f' txn' k' err,
+    NoDup (map fst frags) -> (forall n, In n (map fst frags) -> ~ In n txn) ->
+    write_all no_fault f txn k0 frags = (f', txn', k', err) -> err = None.
+  Proof.
+    induction frags as [|[n c] frags IH]; intros f txn k0 f' txn' k' err Hnd Hnot H; cbn [SaveTxn.write_all] in H.
+    - now inversion H.
+    - cbn [map fst] in Hnd. inversion Hnd; subst.
+      unfold SaveTxn.write_frag, no_fault in H.
+      assert (M : memS n txn = false) by (apply memS_notIn, Hnot; now left). rewrite M in H.
+      eapply IH; [eassumption| |exact H].
+      intros x Hx Hin. apply in_app_or in Hin as [Hin|[<-|[]]]; [apply (Hnot x); [now right|assumption]|contradiction].
+  Qed.
+End Single.
+
+(* ---------------- the property theorems ---------------- *)
+Section Top.
+  Variable tmp : str -> str.
+  Variable decl : str.
+  Variables (f : list (str * str)) (frags : list (str * str)) (order : list str).
+  Let U := map fst frags.
+  Hypothesis Hnd : NoDup U.
+  Hypothesis Hinj : forall a b, In a U -> In b U -> tmp a = tmp b -> a = b.
+  Hypothesis Hdisj : forall a b, In a U -> In b U -> tmp a <> b.
+  Hypothesis Hord : NoDup order.
+  Hypothesis Hcov : incl U order.
+  Hypothesis Hfresh : forall n, In n U -> fs_get f (tmp n) = None.
+  Notation save := (save tmp decl true).
+
+  Lemma failed_save_restores_l k e dry :
+    (k < 5 * length frags)%nat ->
+    exists f2, save (single_fault k e) f true frags order dry = (f2, true, Some e) /\ fs_eq f2 f.
+  Proof.
+    intro Hk.
+    destruct (write_all tmp decl true (single_fault k e) f [] 0 frags) as [[[f1 txn] k1] werr] eqn:W.
+    destruct (write_all_single tmp decl k e frags f [] 0 f1 txn k1 werr Hnd (fun _ _ X => X) W) as [A _].
+    destruct (A ltac:(lia)) as [-> Hlt].
+    apply (save_abort_general tmp decl U Hinj f frags order (incl_refl _) Hord Hcov Hfresh _ dry f1 txn k1 _ W).
+    - right. discriminate.
+    - intros j Hj. unfold single_fault. destruct (Nat.eqb_spec j k); [lia|reflexivity].
+  Qed.
+
+  Lemma dry_run_noop_l :
+    exists f2, save no_fault f true frags order true = (f2, true, None) /\ fs_eq f2 f.
+  Proof.
+    destruct (write_all tmp decl true no_fault f [] 0 frags) as [[[f1 txn] k1] werr] eqn:W.
+    assert (werr = None) as -> by exact (write_all_nofault tmp decl frags _ [] 0 f1 txn k1 werr Hnd (fun _ _ X => X) W).
+    apply (save_abort_general tmp decl U Hinj f frags order (incl_refl _) Hord Hcov Hfresh _ true f1 txn k1 _ W).
+    - now left.
+    - reflexivity.
+  Qed.
+
+  Lemma commit_complete_l :
+    exists f2, save no_fault f true frags order false = (f2, true, None)
+      /\ (forall n c, In (n, c) frags -> fs_get f2 n = Some (decl ++ c))
+      /\ (forall m, ~ In m U -> fs_get f2 m = fs_get f m).
+  Proof.
+    destruct (write_all tmp decl true no_fault f [] 0 frags) as [[[f1 txn] k1] werr] eqn:W.
+    assert (werr = None) as -> by exact (write_all_nofault tmp decl frags _ [] 0 f1 txn k1 werr Hnd (fun _ _ X => X) W).
+    apply (save_commit_general tmp decl U Hinj Hdisj f frags order (incl_refl _) Hord Hcov Hfresh _ f1 txn k1 W).
+    reflexivity.
+  Qed.
+
+  (* a failed save followed by a retry: the retry commits everything *)
+  Lemma retry_succeeds_l k e dry :
+    (k < 5 * length frags)%nat ->
+    exists f2 f3,
+      save (single_fault k e) f true frags order dry = (f2, true, Some e)
+      /\ save no_fault f2 true frags order false = (f3, true, None)
+      /\ (forall n c, In (n, c) frags -> fs_get f3 n = Some (decl ++ c))
+      /\ (forall m, ~ In m U -> fs_get f3 m = fs_get f m).
+  Proof.
+    intro Hk. destruct (failed_save_restores_l k e dry Hk) as (f2 & S1 & Eq).
+    destruct (write_all tmp decl true no_fault f2 [] 0 frags) as [[[f1 txn] k1] werr] eqn:W.
+    assert (werr = None) as -> by exact (write_all_nofault tmp decl frags _ [] 0 f1 txn k1 werr Hnd (fun _ _ X => X) W).
+    assert (Hfresh2 : forall n, In n U -> fs_get f2 (tmp n) = None) by (intros n Hn; rewrite Eq; now apply Hfresh).
+    destruct (save_commit_general tmp decl U Hinj Hdisj f2 frags order (incl_refl _) Hord Hcov Hfresh2 _ f1 txn k1 W
+                ltac:(reflexivity)) as (f3 & S2 & C1 & C2).
+    exists f2, f3. repeat split; try assumption. intros m Hm. rewrite C2 by assumption. apply Eq.
+  Qed.
+
+  Lemma never_partial_l flt dry f2 idle' res :
+    save flt f true frags order dry = (f2, idle', res) ->
+    idle' = true
+    /\ (forall n c, In (n, c) frags -> fs_get f2 n = fs_get f n \/ fs_get f2 n = Some (decl ++ c))
+    /\ (forall m, ~ In m U -> ~ In m (map tmp U) -> fs_get f2 m = fs_get f m).
+  Proof.
+    apply (save_never_partial tmp decl U Hinj Hdisj f frags order (incl_refl _) Hord Hcov).
+  Qed.
+End Top.
+
+(* the side conditions, decided by computation for a concrete list of names *)
+Lemma tmp_ok_sound tmp names :
+  tmp_ok tmp names = true ->
+  NoDup names
+  /\ (forall a b, In a names -> In b names -> tmp a = tmp b -> a = b)
+  /\ (forall a b, In a names -> In b names -> tmp a <> b).
+Proof.
+  unfold tmp_ok. intro H. apply andb_true_iff in H as [H C]. apply andb_true_iff in H as [A B].
+  apply nodupS_NoDup in A. apply nodupS_NoDup in B. split; [assumption|]. split.
+  - clear C. induction names as [|x l IH]; intros a b Ha Hb E; [destruct Ha|].
+    cbn in B. inversion A; inversion B; subst.
+    destruct Ha as [<-|Ha], Hb as [<-|Hb]; try reflexivity.
+    + exfalso. apply H5. rewrite E. now apply in_map.
+    + exfalso. apply H5. rewrite <- E. now apply in_map.
+    + now apply IH.
+  - rewrite forallb_forall in C. intros a b Ha Hb E. specialize (C a Ha).
+    apply negb_true_iff, memS_notIn in C. apply C. now rewrite E.
+Qed.
